@@ -47,7 +47,7 @@ fn tokens_steps() {
 fn deps() {
     match redo::verif::state::deps_probe() {
         Ok(steps) => {
-            let names = ["declared", "after_zap_deps1", "after_redeclare_s1", "after_zap_deps2"];
+            let names = ["declared", "after_zap_deps1", "after_redeclare_s1", "after_zap_deps2", "redeclared_as_created", "created_after_zap_deps2", "modified_again_after_zap_deps2"];
             for (i, rows) in steps.iter().enumerate() {
                 let rows: Vec<String> = rows.iter().map(|(m, n)| format!("[\"{}\",\"{}\"]", m, n)).collect();
                 println!("{{\"probe\":\"deps\",\"step\":\"{}\",\"rows\":[{}]}}", names[i], rows.join(","));
